@@ -36,6 +36,9 @@ func vArgvFor(profile string) []string {
 		return vRawArgv(vParamInt("K"), vParamInt("L"))
 	case "tmpl":
 		return vTemplateArgv(vParamInt("K"), vParamInt("Lp"), vAllShapes)
+	case "tmplmini":
+		// the well-formed core of the template: positional, `--`, short flag, valued option (separate and '=')
+		return vTemplateArgv(vParamInt("K"), vParamInt("Lp"), []int{shPos, shDD, shFlagShort, shValSep, shValEq})
 	}
 	panic("unknown profile " + profile)
 }
